@@ -58,6 +58,10 @@ pub struct K16 {
     /// `RUST_LOG` of the client (None = unset)
     #[serde(default)]
     pub rust_log: Option<String>,
+    /// radar runs with `--airports airports.csv` (a usable file) and the file is deleted / garbled /
+    /// cut short at the first connect attempt after the first accepted session
+    #[serde(default)]
+    pub airports_spoiled: Option<String>,
 }
 
 fn stream_of(s: &S16) -> Vec<u8> {
@@ -127,7 +131,11 @@ pub fn compile(sc: &K16) -> KChild {
         }
         events.push(KEvent { at_us: t_end, ev: KEv::Key { code: "c:q".into(), ctrl: false, shift: false, alt: false } });
     }
-    KChild { file_ops: vec![], rust_log: sc.rust_log.clone(), gpsd: None, ev_delay_us: vec![], connects, events, proc_delay_us: sc.proc_delay_us.clone(), coalesce: sc.coalesce.clone(), step_budget: 60_000 }
+    let file_ops = match (&sc.airports_spoiled, connects.iter().position(|c| c.outcome == KOutcome::Accept)) {
+        (Some(what), Some(i)) if i + 1 < connects.len() => vec![(i + 1, "airports.csv".to_string(), what.clone())],
+        _ => vec![],
+    };
+    KChild { file_ops, rust_log: sc.rust_log.clone(), gpsd: None, ev_delay_us: vec![], connects, events, proc_delay_us: sc.proc_delay_us.clone(), coalesce: sc.coalesce.clone(), step_budget: 60_000 }
 }
 
 // ---------------------------------------------------------------------------- generation
@@ -351,7 +359,7 @@ pub fn generate(rng: &mut Rng, fault_free: bool) -> K16 {
         faults.push("quiet_longer_than_expiry_time".into());
         let eintr_reads = if rng.chance(0.3) { (0..1 + rng.below(4)).map(|_| rng.below(40)).collect() } else { vec![] };
         let sessions = vec![S16 { outcome: KOutcome::Accept, lines: lines.iter().map(|l| wire::hex(l)).collect(), splits, close: None, eintr_reads }];
-        return K16 { app: app.into(), retry, limit_parsing, sessions, proc_delay_us: vec![], coalesce: (0..16).map(|_| rng.chance(0.7)).collect(), f3_period_us: 250_000, faults, quiet_filter_s: Some(f), rust_log };
+        return K16 { app: app.into(), retry, limit_parsing, sessions, proc_delay_us: vec![], coalesce: (0..16).map(|_| rng.chance(0.7)).collect(), f3_period_us: 250_000, faults, quiet_filter_s: Some(f), rust_log, airports_spoiled: None };
     }
     let nsess_accept = if retry { 1 + rng.usize_below(3) } else { 1 };
     let mut sessions = vec![];
@@ -496,6 +504,12 @@ pub fn generate(rng: &mut Rng, fault_free: bool) -> K16 {
         };
         sessions.push(S16 { outcome: KOutcome::Accept, lines: lines.iter().map(|l| wire::hex(l)).collect(), splits, close, eintr_reads });
     }
+    let airports_spoiled = if retry && nsess_accept >= 2 && rng.chance(0.3) {
+        faults.push("airports_file_spoiled_while_disconnected".into());
+        Some((*rng.pick(&["delete", "garble", "truncate"])).to_string())
+    } else {
+        None
+    };
     let proc_delay_us = if !fault_free && rng.chance(0.4) {
         faults.push("slow_iteration".into());
         (0..8).map(|_| *rng.pick(&[0u64, 0, 0, 5_000, 60_000, 300_000])).collect()
@@ -503,7 +517,7 @@ pub fn generate(rng: &mut Rng, fault_free: bool) -> K16 {
         vec![]
     };
     let coalesce = if fault_free { vec![] } else { (0..16).map(|_| rng.chance(0.7)).collect() };
-    K16 { app: app.into(), retry, limit_parsing, sessions, proc_delay_us, coalesce, f3_period_us: *rng.pick(&[250_000u64, 400_000, 1_000_000]), faults, quiet_filter_s: None, rust_log }
+    K16 { app: app.into(), retry, limit_parsing, sessions, proc_delay_us, coalesce, f3_period_us: *rng.pick(&[250_000u64, 400_000, 1_000_000]), faults, quiet_filter_s: None, rust_log, airports_spoiled }
 }
 
 // ---------------------------------------------------------------------------- reference
@@ -765,6 +779,10 @@ pub fn run_k16(sc: &K16) -> (KChild, Parsed) {
         if sc.limit_parsing {
             args.push("--limit-parsing".into());
         }
+        if sc.airports_spoiled.is_some() {
+            args.push("--airports".into());
+            args.push(super::c17::prepare_airports("valid", RX));
+        }
     }
     let run = run_child(&Spec { exe: &exe(if radar { "radar" } else { "1090" }), args, child: &child, tty: if radar { Some((120, 40)) } else { None }, wall_limit: Duration::from_secs(30) });
     let mut vt = Vt::new();
@@ -830,7 +848,8 @@ pub fn execute(sc: &K16) -> Outcome {
 
 fn leak_fault_name(f: &str) -> &'static str {
     // fault names are a closed set; map to 'static for the counters
-    const NAMES: [&str; 32] = [
+    const NAMES: [&str; 33] = [
+        "airports_file_spoiled_while_disconnected",
         "connect_fails_otherwise",
         "diagnostics_switched_on",
         "quiet_longer_than_expiry_time",
@@ -1230,6 +1249,11 @@ pub fn shrink(sc: &K16) -> Vec<K16> {
     if sc.rust_log.is_some() {
         let mut x = sc.clone();
         x.rust_log = None;
+        c.push(x);
+    }
+    if sc.airports_spoiled.is_some() {
+        let mut x = sc.clone();
+        x.airports_spoiled = None;
         c.push(x);
     }
     if !sc.proc_delay_us.is_empty() {
